@@ -1102,7 +1102,8 @@ func (e *Env) call(x *ECall) *SV {
 			return e.intSV(fmt.Sprint(u.Len()))
 		case *types.Map:
 			_, _, _, _, lk, ls := c.mapHeaps(u)
-			return e.intSV("(select " + c.heapGet(e.st, lk, ls) + " " + v.S + ")")
+			// a nil map has length 0 (as in the code's own len)
+			return e.intSV("(ite (= " + v.S + " 0) 0 (select " + c.heapGet(e.st, lk, ls) + " " + v.S + "))")
 		}
 		specFail("len of %s", v.T)
 	case "cap":
